@@ -331,3 +331,52 @@ namespace ss
         s.yield("mutex.unlock");
     }
 } // namespace ss
+
+//=== std::mutex inside the system under test (make_thread_safe_allocator's default) ===//
+#include <pthread.h>
+extern "C"
+{
+    int __real_pthread_mutex_lock(pthread_mutex_t*);
+    int __real_pthread_mutex_unlock(pthread_mutex_t*);
+}
+namespace
+{
+    const char* g_mtx_lo = nullptr;
+    const char* g_mtx_hi = nullptr;
+    ss::SimMutex& stand_in()
+    {
+        static ss::SimMutex* m = new ss::SimMutex;
+        return *m;
+    }
+    bool simulated(const pthread_mutex_t* m)
+    {
+        auto c = reinterpret_cast<const char*>(m);
+        return g_mtx_lo && c >= g_mtx_lo && c < g_mtx_hi;
+    }
+} // namespace
+namespace ss
+{
+    void simulate_std_mutexes_in(const void* lo, const void* hi)
+    {
+        g_mtx_lo = static_cast<const char*>(lo);
+        g_mtx_hi = static_cast<const char*>(hi);
+    }
+} // namespace ss
+extern "C" int __wrap_pthread_mutex_lock(pthread_mutex_t* m)
+{
+    if (simulated(m))
+    {
+        stand_in().lock();
+        return 0;
+    }
+    return __real_pthread_mutex_lock(m);
+}
+extern "C" int __wrap_pthread_mutex_unlock(pthread_mutex_t* m)
+{
+    if (simulated(m))
+    {
+        stand_in().unlock();
+        return 0;
+    }
+    return __real_pthread_mutex_unlock(m);
+}
